@@ -221,7 +221,18 @@ class Connection(ExportImport):
         obj._p_jar = self
         if self._added_during_commit is not None:
             self._added_during_commit.append(obj)
-        self._register(obj)
+        try:
+            self._register(obj)
+        except:  # noqa: E722 do not use bare 'except'
+            # Joining the transaction failed (e.g. TransactionFailedError
+            # after a failed commit that was not aborted yet): the object is
+            # neither registered nor in _added, so no abort would ever
+            # disown it again.
+            if self._added_during_commit is not None:
+                self._added_during_commit.remove(obj)
+            del obj._p_jar
+            del obj._p_oid
+            raise
         # Add to _added after calling register(), so that _added
         # can be used as a test for whether the object has been
         # registered with the transaction.
